@@ -125,6 +125,12 @@ def replay(cases):
                     where = "track history [%s] step %d" % (label, si + 1)
                     with core.quiet():
                         barg = None if s["kind"] == "none" else objs[s["arg"]][s["kind"]]
+                        # aliasing family: every other explicit base is handed over as a private copy which the caller
+                        # EDITS right after the call (re-using the object for another site): the track must have kept a
+                        # snapshot of the base it used, not a reference to the caller's object
+                        edited = barg is not None and (si + len(hist) + len(label)) % 2 == 0
+                        if edited:
+                            barg = barg.copy()
                         if s["a"] == "toECEF":
                             tr.toECEFCoords() if barg is None else tr.toECEFCoords(barg)
                         elif s["a"] == "toGeo":
@@ -135,6 +141,10 @@ def replay(cases):
                             tr.toENUCoords()
                         else:
                             tr.toENUCoords(barg)
+                        if edited:
+                            barg.setX(barg.getX() + 3.0)
+                            barg.setY(barg.getY() - 2.0)
+                            barg.setZ(barg.getZ() + 500.0)
                     if tr.getSRID() != s["srid"]:
                         viol.append(("track/srid", "%s: track is %s, specification %s" % (where, tr.getSRID(), s["srid"]), case)); break
                     if s["base"] == "none":
